@@ -5,7 +5,7 @@ from typing import Any, Dict, List, Optional
 from qv.kinds import discover, SPEC, CHANNELS
 
 DURS = [0, 0.5, 1, 2, 3, 7.25]
-GLOB_GRID = [0.25, 0.5, 1.0, 2.0, 3.0, 8.0]
+GLOB_GRID = [0.0, 0.25, 0.5, 1.0, 2.0, 3.0, 8.0]
 REG_KEYS = ["ra", "rb", "rc"]
 REP_KEYS = ["na", "nb"]
 TAGS = ["", "a", "b", "c"]
